@@ -263,6 +263,18 @@ def monitor(ctx, extended=False):
     for h in scripted:
         run_history(ctx, h, 'scripted-fine-sand')
         nontrivial += 1
+    # small steps: a parameter moved by less than the resolution of its input box, once and repeatedly, with the curves read before (an "is it worth
+    # regenerating" shortcut in a setter shows only here)
+    small = [[('im_curves', None), ('Cv', 0.1754)],
+             [('Erhg_curves', None), ('Cv', 0.1754), ('Cv', 0.1758), ('Cv', 0.1762), ('Cv', 0.1766), ('Cv', 0.177)],
+             [('rhom', 1.309), ('im_curves', None), ('rhom', 1.3095)],
+             [('LDV_curves', None), ('epsilon', 4.51e-5)],
+             [('im_curves', None), ('D50', 1.0002e-3)],
+             [('im_curves', None), ('rhos', 2.6503)],
+             [('im_curves', None), ('Dp', 0.7621)]]
+    for h in small:
+        run_history(ctx, h, 'scripted-small-steps')
+        nontrivial += 1
     for _ in range(ctx.n(60, 3000) * (3 if extended else 1)):
         run_history(ctx, [(ctx.rng.choice(READS_C + READS_G), None)] + random_history(ctx, ctx.rng.randint(3, 12)), 'random')
         nontrivial += 1
@@ -322,4 +334,45 @@ def monitor(ctx, extended=False):
             nontrivial += 1
         except Exception as e:   # noqa
             ctx.violation(f'pipeline history raised {type(e).__name__}: {e}', {'diameters': dias, 'log': log}, key='stale-copy')
+    # the pipeline's slurry and one of its per-diameter copies edited independently, in turn: each keeps its own parameters (an edit of one leaves no trace in the other)
+    for _ in range(ctx.n(12, 300)):
+        st0 = dict(INIT)
+        st0['D50'] = ctx.rng.choice([0.2e-3, 0.3e-3, 1.0e-3])
+        d_other = ctx.rng.choice([0.5, 0.65, 0.9])
+        pl = Pipeline(pipe_list=[Pipe('a', st0['Dp'], 0.0, 0.5, -5.0), Pipe('b', d_other, 200.0, 0.2, 1.0), Pipe('c', st0['Dp'], 500.0, 1.0, 2.0)], slurry=fresh(st0))
+        objs = {'pipeline slurry': (pl.slurry, dict(st0)), f'copy for {d_other}': (pl.slurries[d_other], dict(st0, Dp=d_other))}
+        log = []
+        try:
+            for _ in range(ctx.rng.randint(2, 5)):
+                who = ctx.rng.choice(sorted(objs))
+                o, stt = objs[who]
+                n = ctx.rng.choice(['generate_GSD', 'generate_GSD', 'D50', 'rhos', 'Cv', 'read'])
+                if n == 'read':
+                    _ = o.im_curves if ctx.rng.random() < 0.5 else o.GSD
+                    log.append(f'{who}: read')
+                elif n == 'generate_GSD':
+                    shape = ctx.rng.choice([(2.0, 4.0), (1.5, 3.5), (3.0, 2.72)])
+                    if ctx.rng.random() < 0.5:
+                        o.generate_GSD(d85_ratio=shape[1])
+                        stt['shape'] = (stt['shape'][0], shape[1])
+                    else:
+                        o.generate_GSD(d15_ratio=shape[0], d85_ratio=shape[1])
+                        stt['shape'] = shape
+                    log.append(f'{who}: generate_GSD -> shape {stt["shape"]}')
+                else:
+                    v = ctx.rng.choice({'D50': [0.4e-3, 0.8e-3], 'rhos': VALUES['rhos'], 'Cv': VALUES['Cv']}[n])
+                    setattr(o, n, v)
+                    stt[n] = v
+                    log.append(f'{who}: {n}={v}')
+            for who in sorted(objs):
+                ctx.count('evaluations')
+                o, stt = objs[who]
+                bad = diff_obs(observables(o), observables(fresh(stt)))
+                if bad:
+                    ctx.violation(f'{who} differs from a slurry built directly with its own final parameters on {bad}',
+                                  {'log': log, 'final': {k: str(v) for k, v in stt.items()}}, key='stale-copy')
+                    break
+            nontrivial += 1
+        except Exception as e:   # noqa
+            ctx.violation(f'independent edits of a pipeline slurry and its copy raised {type(e).__name__}: {e}', {'log': log}, key='stale-copy')
     ctx.stats['distinct_nontrivial'] = nontrivial
